@@ -78,6 +78,15 @@ def norm_expr(e):
         return ("call", "unwrap_or", e[2], (e[3][0][3][0], e[3][1]), e[4] if len(e) > 4 else ())
     if is_call(e, "map_or") and len(e[3]) == 3 and isinstance(e[3][2], tuple) and e[3][2][:1] == ("closure",):
         return ("call", "unwrap_or", e[2], (e[3][0], e[3][1]), e[4] if len(e) > 4 else ())
+    if e[0] == "bin" and e[1] in ("Eq", "Ne") and is_call(e[2], ("cmp", "partial_cmp")) and len(e[2][3]) == 2 \
+            and isinstance(e[3], tuple) and e[3][0] == "agg" and e[3][1] == "Ordering":
+        # a.cmp(&b) != Less  ->  a >= b, etc.
+        a, c = e[2][3]
+        table = {("Ne", "Less"): "Ge", ("Eq", "Less"): "Lt", ("Ne", "Greater"): "Le", ("Eq", "Greater"): "Gt",
+                 ("Eq", "Equal"): "Eq", ("Ne", "Equal"): "Ne"}
+        op = table.get((e[1], e[3][2]))
+        if op:
+            return ("bin", op, a, c)
     if is_call(e, "from_elem") and len(e[3]) == 2:
         # vec![x; n]  ==  repeat(x).take(n).collect()
         return ("call", "collect", None, (("call", "take", None, (("call", "repeat", None, (e[3][0],), ()), e[3][1]), ()),), ())
@@ -532,6 +541,17 @@ class Body:
                     a = self.e_operand(r["a"], depth + 1, visiting)
                     b = self.e_operand(r["b"], depth + 1, visiting)
                     base = ("bin" if pr[0]["f"] == 0 else "ovf", BINOPS[r["op"]], a, b)
+                    start = 1
+        if base is None and pr and isinstance(pr[0], dict) and "f" in pr[0] and pr[0].get("adt") == "tuple":
+            # `match (a, b) { (X(p), Y(q)) => .. }`: the scrutinee tuple is built once and its fields are only
+            # re-borrowed afterwards (never assigned): field k is the k-th operand of the aggregate
+            ds = self.defs.get(l, [])
+            fd = [d for d in ds if d[0] == "full"]
+            if len(fd) == 1 and fd[0][1] == "stmt" and not [d for d in ds if d[0] == "partial"] and not self.is_param(l):
+                st = self.blocks[fd[0][2]]["st"][fd[0][3]]
+                r = st["r"]
+                if r["k"] == "agg" and r.get("ak") == "tuple" and pr[0]["f"] < len(r["fs"]):
+                    base = self.e_operand(r["fs"][pr[0]["f"]], depth + 1, visiting)
                     start = 1
         if base is None:
             base = self.e_local(l, depth, visiting)
